@@ -1,0 +1,25 @@
+//go:build verif
+
+package pause
+
+import (
+	"io"
+
+	"k8s.io/cli-runtime/pkg/genericclioptions"
+	"sigs.k8s.io/controller-runtime/pkg/client"
+)
+
+// VerifRunPause runs the body of `kubectl-eds pause-rolling-update|unpause-rolling-update` with an injected client.
+func VerifRunPause(c client.Client, ns, name string, pause bool, out io.Writer) error {
+	want := unpaused
+	if pause {
+		want = paused
+	}
+	o := newPauseOptions(genericclioptions.IOStreams{Out: out, ErrOut: out}, want)
+	o.client, o.userNamespace, o.userExtendedDaemonSetName, o.args = c, ns, name, []string{name}
+	if err := o.validate(); err != nil {
+		return err
+	}
+
+	return o.run()
+}
